@@ -79,7 +79,8 @@ class DefaultDeploymentManager(DeploymentManager):
                     self.events_map[deployment_name].set()
                     break
             else:
-                await self.events_map[deployment_name].wait()
+                while not (event := self.events_map[deployment_name]).is_set():
+                    await event.wait()
                 if deployment_name not in self.deployments_map:
                     raise WorkflowExecutionException(
                         f"FAILED deployment of {deployment_name}"
@@ -183,7 +184,8 @@ class DefaultDeploymentManager(DeploymentManager):
             self.dependency_graph[deployment_name].discard(deployment_name)
             # If there are no more inner deployments, undeploy the environment and clear the related data structures
             if len(self.dependency_graph[deployment_name]) == 0:
-                self.events_map[deployment_name].clear()
+                event = self.events_map[deployment_name]
+                event.clear()
                 connector = self.deployments_map[deployment_name]
                 config = self.config_map[deployment_name]
                 if logger.isEnabledFor(logging.INFO):
@@ -196,7 +198,7 @@ class DefaultDeploymentManager(DeploymentManager):
                 if logger.isEnabledFor(logging.INFO):
                     if not config.external:
                         logger.info(f"COMPLETED undeployment of {deployment_name}")
-                self.events_map[deployment_name].set()
+                event.set()
             # Remove the current environment from all the other dependency graphs
             for name, deps in list(
                 (k, v) for k, v in self.dependency_graph.items() if k != deployment_name
